@@ -459,6 +459,10 @@ func forwardBytes(c *Ctx, v ssa.Value, seen map[ssa.Value]bool, depth int) (sink
 				bad = append(bad, "string concatenation at "+c.instrPos(x))
 			}
 		case *ssa.Store:
+			// the body of an rpm file record
+			if fa, ok := x.Addr.(*ssa.FieldAddr); ok && x.Val == v && isNamed(derefType(fa.X.Type()), rpmpackPath, "RPMFile") && fieldName(fa.X.Type(), fa.Field) == "Body" {
+				sinks++
+			}
 			// stored into a local cell: follow loads
 			if al, ok := x.Addr.(*ssa.Alloc); ok && x.Val == v {
 				for _, r2 := range *al.Referrers() {
@@ -502,7 +506,7 @@ func forwardBytes(c *Ctx, v ssa.Value, seen map[ssa.Value]bool, depth int) (sink
 			case q == "io.Copy" && argIdx == 0:
 			case rpmScriptMethods[o.Name()] != "" && calleeIs(x, rpmpackPath, "RPM", o.Name()):
 				sinks++
-			case q == "io.ReadAll" || q == "bytes.NewReader" || q == "strings.NewReader" || q == "bytes.NewBuffer" || q == "io.TeeReader" && argIdx == 0:
+			case q == "io.ReadAll" || q == "bytes.NewReader" || q == "strings.NewReader" || q == "bytes.NewBuffer" || q == "bufio.NewReader" || q == "bufio.NewReaderSize" || q == "io.NopCloser" || q == "io.TeeReader" && argIdx == 0:
 				if cv, ok := x.(*ssa.Call); ok {
 					follow(cv)
 				}
